@@ -230,6 +230,7 @@ type DimSpec struct {
 	Param string `json:"param"`
 	// Enc selects another encoding of an unspecified dimension: "zero" an explicit dim_value 0, "symempty" a dim_param "".
 	Enc string `json:"enc"`
+	Den string `json:"den"` // denotation
 }
 
 func mkValueInfo(name string, dt string, dims []DimSpec) *onnx.ValueInfoProto {
@@ -246,6 +247,7 @@ func mkValueInfo(name string, dt string, dims []DimSpec) *onnx.ValueInfoProto {
 		case d.Size > 0:
 			dim.Value = &onnx.TensorShapeProto_Dimension_DimValue{DimValue: d.Size}
 		}
+		dim.Denotation = d.Den
 		shape.Dim = append(shape.Dim, dim)
 	}
 	return &onnx.ValueInfoProto{
